@@ -28,7 +28,7 @@ CAVals == [ method : {"private_key_jwt", "client_secret_basic", "client_secret_p
             iss    : {"client", "other", "absent"},
             sub    : {"client", "other", "absent"},
             \* child_path / with_query / other_case: URLs that merely start with, extend or re-spell the token URL -- "contains the token URL" is equality of one element
-            aud    : {"token_url", "other", "list_with_token_url", "list_without", "absent", "child_path", "with_query", "list_child_path"},
+            aud    : {"token_url", "other", "list_with_token_url", "list_without", "absent", "child_path", "with_query", "list_child_path", "empty_list"},   \* empty_list: an aud claim that is present and names nobody
             \* *_frac: NumericDate values with a fractional part (RFC 7519 allows them); they expire when their instant has passed like any other
             \* just_past: one second ago -- there is no grace period in the statement
             exp    : {"future", "past", "absent", "string", "future_frac", "past_frac", "just_past"},
@@ -55,7 +55,7 @@ CARows == { [tbl |-> "CA", f |-> r, accept |-> CAAccept(r)] :
 BGVals == [ key    : {"registered", "other_issuer", "unregistered"},
             kid    : {"right", "absent", "unknown"},
             who    : {"registered", "other_subject", "no_iss", "no_sub"},
-            aud    : {"token_url", "other", "list_with_token_url", "absent", "child_path", "with_query", "list_child_path"},
+            aud    : {"token_url", "other", "list_with_token_url", "absent", "child_path", "with_query", "list_child_path", "empty_list"},
             exp    : {"future", "past", "beyond_max", "absent", "future_frac", "past_frac", "just_past"},
             nbf    : {"absent", "past", "future", "just_future"},
             iat    : {"present", "absent"},
